@@ -252,7 +252,14 @@ type vfC04CliCase struct {
 	WriteFirst bool   `json:"client_writes_before_reading"`
 	GreetN     int    `json:"greeting_len"`
 	DialFails  bool   `json:"dial_fails"`
+	Drain      string `json:"drain"` // how the application reads: "read" = Read calls, "copy" = io.Copy(dst, conn), "copybuf" = io.CopyBuffer
 }
+
+// vfC04WriterOnly hides every optional interface of the destination, so that io.Copy can only pick the
+// SOURCE's fast path (io.WriterTo) if the conn offers one.
+type vfC04WriterOnly struct{ w io.Writer }
+
+func (x vfC04WriterOnly) Write(b []byte) (int, error) { return x.w.Write(b) }
 
 func TestVerifC04ClientFastOpen(t *testing.T) {
 	k := vfNewKit(t, "C04", "client-fastopen-e2e")
@@ -263,7 +270,20 @@ func TestVerifC04ClientFastOpen(t *testing.T) {
 		for _, wf := range []bool{false, true} {
 			for _, gn := range []int{1, 9, 700} {
 				for _, df := range []bool{false, true} {
-					cases = append(cases, vfC04CliCase{Timeouts: to, WriteFirst: wf, GreetN: gn, DialFails: df})
+					cases = append(cases, vfC04CliCase{Timeouts: to, WriteFirst: wf, GreetN: gn, DialFails: df, Drain: "read"})
+				}
+			}
+		}
+	}
+	// the application drains the conn the way relays do: io.Copy / io.CopyBuffer (which use the conn's
+	// io.WriterTo when it has one); the target closes after its greeting so that the copy ends
+	for _, drain := range []string{"copy", "copybuf"} {
+		for _, to := range []int{0, 1} {
+			for _, wf := range []bool{false, true} {
+				for _, gn := range []int{1, 700} {
+					for _, df := range []bool{false, true} {
+						cases = append(cases, vfC04CliCase{Timeouts: to, WriteFirst: wf, GreetN: gn, DialFails: df, Drain: drain})
+					}
 				}
 			}
 		}
@@ -290,7 +310,12 @@ func TestVerifC04ClientFastOpen(t *testing.T) {
 					return nil, fmt.Errorf("vf: refused %s", addr)
 				}
 				pt := vfNewPipeTarget()
-				go func() { _, _ = pt.Harness.Write(greeting) }()
+				go func() {
+					_, _ = pt.Harness.Write(greeting)
+					if c.Drain != "read" {
+						_ = pt.Harness.Close()
+					}
+				}()
 				w.onClose(func() { _ = pt.Harness.Close() })
 				return pt.serverSide, nil
 			}
@@ -322,12 +347,24 @@ func TestVerifC04ClientFastOpen(t *testing.T) {
 			_ = conn.SetReadDeadline(time.Now().Add(5 * time.Second))
 			var got []byte
 			var rerr error
-			for len(got) < len(greeting) {
-				var n int
-				n, rerr = conn.Read(buf)
-				got = append(got, buf[:n]...)
-				if rerr != nil {
-					break
+			switch c.Drain {
+			case "copy", "copybuf":
+				var sink bytes.Buffer
+				if c.Drain == "copy" {
+					_, rerr = io.Copy(vfC04WriterOnly{&sink}, conn)
+				} else {
+					_, rerr = io.CopyBuffer(vfC04WriterOnly{&sink}, conn, make([]byte, 333))
+				}
+				got = sink.Bytes()
+				k.Count("ev_client_fastopen_copies", 1)
+			default:
+				for len(got) < len(greeting) {
+					var n int
+					n, rerr = conn.Read(buf)
+					got = append(got, buf[:n]...)
+					if rerr != nil {
+						break
+					}
 				}
 			}
 			k.Count("ev_client_fastopen_reads", 1)
@@ -338,14 +375,14 @@ func TestVerifC04ClientFastOpen(t *testing.T) {
 					k.Violation("client:dial-error-not-carried", rep, "dial failed with %q on the server but Read returned err=%v", "vf: refused target.verif:80", rerr)
 				} else {
 					k.Count("ev_client_dial_errors_carried", 1)
-					k.Nontrivial(fmt.Sprintf("dialfail/%d/%v", c.Timeouts, c.WriteFirst))
+					k.Nontrivial(fmt.Sprintf("dialfail/%d/%v/%s", c.Timeouts, c.WriteFirst, c.Drain))
 				}
 			} else if !bytes.Equal(got, greeting) {
 				k.Violation("client:response-frame-leaked-into-payload", rep, "after %d timed-out Read(s) the next Read returned %d bytes %x..., the target sent %d bytes %x... (err %v)",
 					c.Timeouts, len(got), got[:min(16, len(got))], len(greeting), greeting[:min(16, len(greeting))], rerr)
 			} else {
 				k.Count("ev_client_fastopen_ok", 1)
-				k.Nontrivial(fmt.Sprintf("%d/%v/%d", c.Timeouts, c.WriteFirst, c.GreetN))
+				k.Nontrivial(fmt.Sprintf("%d/%v/%d/%s", c.Timeouts, c.WriteFirst, c.GreetN, c.Drain))
 			}
 			_ = conn.Close()
 			_ = context.Background()
